@@ -2,7 +2,7 @@
    Audited statements only; proofs are in CIface/{Exn,Entries,C20}.v.  [entries], [prototypes],
    [enum_error_code] are regenerated from the working tree on every run (gen/Facts_CIface.v). *)
 From Coq Require Import List String ZArith Bool.
-Require Import PPLV.CIface.Exn PPLV.CIface.Entries PPLV.gen.Facts_CIface PPLV.CIface.C20.
+Require Import PPLV.CIface.Exn PPLV.CIface.Entries PPLV.CIface.Spec PPLV.gen.Facts_CIface PPLV.CIface.C20.
 Import ListNotations.
 
 (* --- generic theorems about C++ catch semantics (any chain) --- *)
